@@ -13,6 +13,7 @@ This private submodule is *not* intended for importation by downstream callers.
 
 # ....................{ IMPORTS                            }....................
 from beartype.door._cls.doorsuper import TypeHint
+from beartype.typing import Any
 from beartype.door._cls.doorhint import TupleTypeHints
 
 # ....................{ SUBCLASSES                         }....................
@@ -45,41 +46,55 @@ class LiteralTypeHint(TypeHint):
     # ..................{ PRIVATE ~ testers                  }..................
     def _is_subhint(self, other: TypeHint) -> bool:
 
-        # If the passed hint is also a literal, return true only if the set of
-        # all child hints subscripting this literal is a subset of the set of
-        # all child hints subscripting that literal.
-        if isinstance(other, LiteralTypeHint):
-            return all(self_arg in other._args for self_arg in self._args)
-        # Else, the passed hint is *NOT* also a literal.
-
-        # Return true only if either...
-        return (
-            # The class of each child hint subscripting this literal is a
-            # subhint (e.g., subclass) of the passed hint *OR*...
-            #
-            # Note that, unlike most type hints, each child hints subscripting
-            # this literal is typically *NOT* a valid type hint in and of itself
-            # (e.g., "Literal[True]" is a valid type hint, but "True" is not).
-            # This test *CANNOT* be reduced to the simpler and sensible variant:
-            #     return all(
-            #         hint_child.is_subhint(other)
-            #         for hint_child in self._args_wrapped_tuple
-            #     )
-            all(
-                TypeHint(type(literal_child)).is_subhint(other)  # pyright: ignore
-                for literal_child in self._args
-            ) or
-            # Else, the class of one or more child hints subscripting this
-            # literal is *NOT* a subhint (e.g., subclass) of the passed hint.
-            #
-            # Defer to the superclass implementation of this method. Why?
-            # Because this literal could still be a subhint of passed hint
-            # according to standard typing semantics. Notably, this literal
-            # could be a child type hint and thus a subhint of the passed type
-            # hint - despite failing all of the above literal-specific subhint
-            # tests: e.g.,
-            #     # The call below handles this surprisingly common edge case.
-            #     >>> Literal[True] <= Union[Literal[True], Literal[False]]
-            #     True
-            super()._is_subhint(other)
+        # Return true only if *EACH* literal object subscripting this literal is
+        # permitted by *SOME* branch of the passed hint (e.g., some child hint
+        # of a union), where a branch permits a literal object if that branch is
+        # either:
+        # * Itself a literal subscripted by that same object, where "same"
+        #   implies both equality *AND* the same type. Equality does *NOT*
+        #   suffice, as Python equates objects of differing types (e.g.,
+        #   "1 == True"), yet "Literal[1]" and "Literal[True]" are distinct.
+        # * A superhint of the type of that object (e.g., "int" or "object" for
+        #   the literal object "1").
+        #
+        # Note that, unlike most type hints, each literal object subscripting
+        # this literal is typically *NOT* a valid type hint in and of itself
+        # (e.g., "Literal[True]" is a valid type hint, but "True" is not).
+        return all(
+            any(
+                self._is_literal_subhint_branch(literal_child, other_branch)
+                for other_branch in other._branches
+            )
+            for literal_child in self._args
         )
+
+
+    @staticmethod
+    def _is_literal_subhint_branch(
+        literal_child: object, branch: TypeHint) -> bool:
+        '''
+        :data:`True` only if the passed literal object subscripting this literal
+        is permitted by the passed branch of another hint.
+        '''
+
+        # If that branch is the catch-all "Any", that branch permits everything.
+        if branch._hint is Any:
+            return True
+        # Else, that branch is *NOT* the catch-all "Any".
+        #
+        # If that branch is itself a literal, return true only if that literal
+        # is subscripted by an object of the same type equal to this object.
+        elif isinstance(branch, LiteralTypeHint):
+            literal_child_type = literal_child.__class__
+            return any(
+                (
+                    literal_child_type is branch_child.__class__ and
+                    literal_child == branch_child
+                )
+                for branch_child in branch._args
+            )
+        # Else, that branch is *NOT* a literal.
+
+        # Return true only if the type of this object is a subhint of (e.g.,
+        # subclasses) that branch.
+        return TypeHint(literal_child.__class__).is_subhint(branch)  # type: ignore[arg-type]
